@@ -15,17 +15,28 @@ if HERE not in sys.path:
 from pyvc import dsl  # noqa: E402
 
 
+class _ContractFinder:
+    """`import contracts_<name>` loads /verif/contracts/<name>.py (sidecar files import each other)."""
+
+    @staticmethod
+    def find_spec(name, path=None, target=None):
+        if name.startswith("contracts_"):
+            fn = os.path.join(HERE, "contracts", name[len("contracts_"):] + ".py")
+            if os.path.exists(fn):
+                return importlib.util.spec_from_file_location(name, fn)
+        return None
+
+
+if not any(isinstance(f, type) and f.__name__ == "_ContractFinder" for f in sys.meta_path):
+    sys.meta_path.append(_ContractFinder)
+
+
 def load_contracts():
     d = os.path.join(HERE, "contracts")
     mods = {}
     for fn in sorted(os.listdir(d)):
         if fn.endswith(".py") and not fn.startswith("_"):
-            name = "contracts_" + fn[:-3]
-            spec = importlib.util.spec_from_file_location(name, os.path.join(d, fn))
-            m = importlib.util.module_from_spec(spec)
-            sys.modules[name] = m
-            spec.loader.exec_module(m)
-            mods[fn[:-3]] = m
+            mods[fn[:-3]] = importlib.import_module("contracts_" + fn[:-3])
     return mods
 
 
